@@ -37,23 +37,56 @@ def case_exp(H, g, f32=False):
     def replay(model):
         import mpmath
         mpmath.mp.dps = 40
-        av = tensor_from_env(['a%d' % i for i in range(n)], model, dtype=dt)
-        X = pp.LieTensor(av, ltype=ATYPE[g]).Exp()
-        M = X.matrix().double()
-        ta, ph, sg = aparts(g, [mpmath.mpf(float(v)) for v in av.tolist()])
-        K = mpmath.matrix([[0, -ph[2], ph[1]], [ph[2], 0, -ph[0]], [-ph[1], ph[0], 0]])
-        G = mpmath.zeros(4, 4)
-        for i in range(3):
-            for j in range(3):
-                G[i, j] = K[i, j] + (sg if (sg is not None and i == j) else 0)
-            if ta is not None:
-                G[i, 3] = ta[i]
-        E = mpmath.expm(G)
-        sz = M.shape[0]
-        err = max(abs(float(E[i, j]) - M[i, j].item()) for i in range(sz) for j in range(sz))
-        scale = 1 + max(abs(float(E[i, j])) for i in range(sz) for j in range(sz))
-        tol = (1e-5 if not f32 else 3e-2)
-        return err / scale > tol, 'matrix(Exp(x)) differs from expm(hat x) by %.3g (relative) at x=%s' % (err / scale, av.tolist())
+        av0 = tensor_from_env(['a%d' % i for i in range(n)], model, dtype=dt)
+        cands = [av0]
+        if aparts(g, list(range(n)))[0] is not None:
+            # obligations on the coupling matrix W leave tau free in the model: also look at tau = e_1, e_2, e_3 and tau = phi
+            ti, pi_, _ = aparts(g, list(range(n)))
+            for tv in ([1.0, 0, 0], [0, 1.0, 0], [0, 0, 1.0], [float(av0[k]) for k in pi_]):
+                c = av0.clone()
+                for k, v in zip(ti, tv):
+                    c[k] = v
+                cands.append(c)
+        # rotation magnitudes around the candidate (the solver's point is arbitrary inside its branch)
+        _, pidx, _ = aparts(g, list(range(n)))
+        for av in list(cands[:1]):
+            for f in (2.0, 5.0, 10.0, 0.5, 0.2, 0.1):
+                c = av.clone()
+                for k in pidx:
+                    c[k] = av[k] * f
+                cands.append(c)
+        eps_ = torch.finfo(dt).eps
+        worst, wav, wwhat = -1.0, av0, ''
+        for av in cands:
+            X = pp.LieTensor(av, ltype=ATYPE[g]).Exp()
+            M = X.matrix().double()
+            qi_ = {'SO3': 0, 'SE3': 3, 'RxSO3': 0, 'Sim3': 3}[g]
+            nerr = abs(X.tensor()[qi_:qi_ + 4].double().norm().item() - 1.0)
+            ta, ph, sg = aparts(g, [mpmath.mpf(float(v)) for v in av.tolist()])
+            K = mpmath.matrix([[0, -ph[2], ph[1]], [ph[2], 0, -ph[0]], [-ph[1], ph[0], 0]])
+            G = mpmath.zeros(4, 4)
+            for i in range(3):
+                for j in range(3):
+                    G[i, j] = K[i, j] + (sg if (sg is not None and i == j) else 0)
+                if ta is not None:
+                    G[i, 3] = ta[i]
+            E = mpmath.expm(G)
+            # the property's accuracy: rotation and scale blocks within a small multiple of eps (64 allowed here; about 8 observed on the
+            # unchanged tree over 1e4 points), unit quaternion likewise (16 eps), translation block within 100 sqrt(eps); each error is
+            # expressed as a multiple of its allowance
+            rs = max(abs(float(E[i, j])) for i in range(3) for j in range(3))
+            rerr = max(abs(float(E[i, j]) - M[i, j].item()) for i in range(3) for j in range(3)) / rs
+            errs = [(rerr / (64 * eps_), 'rotation/scale block off by %.3g (relative; allowed 64 eps)' % rerr),
+                    (nerr / (16 * eps_), 'quaternion norm off by %.3g (allowed 16 eps)' % nerr)]
+            if ta is not None and M.shape[0] == 4:
+                tn = float(mpmath.sqrt(sum(E[i, 3] ** 2 for i in range(3))))
+                if tn > 0:
+                    terr = float(mpmath.sqrt(sum((mpmath.mpf(M[i, 3].item()) - E[i, 3]) ** 2 for i in range(3)))) / tn
+                    errs.append((terr / (100 * eps_ ** 0.5), 'translation block off by %.3g (relative; allowed 100 sqrt(eps))' % terr))
+            for e_, w_ in errs:
+                if e_ > worst:
+                    worst, wav, wwhat = e_, av, w_
+        return worst > 1.0, 'matrix(Exp(x)) vs expm(hat x): %s at x=%s' % (wwhat, wav.tolist())
 
     for ctx, (q, M, as_, m, X, Mt) in run_paths(H, name, prog, max_paths=16, f32=f32):
         selftest(H, ctx, m, [(q, X.tensor().double() if f32 else X.tensor()), (M, Mt.double() if f32 else Mt)], name) if not f32 else None
@@ -81,7 +114,7 @@ def case_exp(H, g, f32=False):
                         neg_margin=z3.Or(d > z3.RealVal('1/1000'), d < -z3.RealVal('1/1000')))
             else:
                 H.prove('%s/path%d/%s' % (name, pn, nm), hyp, lhs == rhs, replay=replay, key=key, timeout=to,
-                        neg_margin=z3.Or(d > z3.RealVal('1/1000'), d < -z3.RealVal('1/1000')))
+                        neg_margin=[z3.Or(d > z3.RealVal(mg), d < -z3.RealVal(mg)) for mg in ('1/1000', '1/1000000000', '1/10000000000000')])
         # rotation block of the documented matrix: from the returned quaternion by the textbook formula (the relation between
         # matrix() and the quaternion is C03's subject); Rodrigues with the oracle's own sin/cos of theta
         Rq = T.quat_rot(qq)
@@ -121,8 +154,14 @@ def case_exp(H, g, f32=False):
                 for i in range(3):
                     eq('W.phi==phi[%d]' % i, Wp[i], ph[i])
             else:
-                # sigma == 0 (exactly) is inside the |sigma|<=eps branch: there W phi = phi must hold exactly as well
-                pass
+                # projection on the rotation axis (K phi = 0): W phi = ((e^sigma - 1)/sigma) phi, and = phi up to round-off level
+                # in the |sigma| <= eps branch.  Cheap and decisive for the coefficient of I in every regime pair.
+                Wp = T.mv(W, ph)
+                for i in range(3):
+                    if small_sigma:
+                        eq('W.phi==phi[%d]' % i, Wp[i], ph[i], scale=ph[i] * ph[i], approx=True)
+                    else:
+                        eq('sigma.W.phi==(e^sigma-1).phi[%d]' % i, sg * Wp[i], (es - 1) * ph[i], scale=ph[i] * ph[i])
         if pn % 2 == 0:
             H.reach('%s/path%d/reach' % (name, pn), hyp)
 
@@ -177,6 +216,64 @@ def case_rounding_C(H, f32=False):
         H.notes.append('%s: %d rounding variables' % (name, len(ctx.deltas)))
 
 
+def case_rounding_W(H, f32=False):
+    """standard-model rounding analysis of the whole scale-translation coupling W = C I + A K + B K^2 (rxso3_Ws), observed through
+    the public API as the translation of sim3([1,0,0, 0,0,theta, sigma]).Exp() = (C - B theta^2, A theta, 0): every regime pair of
+    (theta, sigma) is a path; on each the rounding error of both components must stay below 100 sqrt(eps) of the translation's size"""
+    name = 'C01/rounding/rxso3_Ws.AB%s' % ('/float32' if f32 else '')
+    dt = torch.float32 if f32 else DT
+    eps = torch.finfo(dt).eps
+    u = rat(eps) / 2
+    tolf = 100 * eps ** 0.5
+
+    def prog(m):
+        m.ctx.round_u = u
+        x = torch.tensor([1.0, 0, 0, 0, 0, 1e-3, 2e-3], dtype=dt)
+        th, sig = z3.Real('theta'), z3.Real('sigma')
+        m.ctx.env['theta'], m.ctx.env['sigma'] = 1e-3, 2e-3
+        m.set_terms(x, [None] * 5 + [th, sig])
+        m.ctx.assume += [th > 0, th <= z3.RealVal('1/4'), sig <= z3.RealVal('1/4'), sig >= -z3.RealVal('1/4')]
+        X = pp.sim3(x).Exp()
+        t = m.full_terms(X.tensor())
+        return t[0], t[1], th, sig
+
+    def replay(model):
+        import mpmath
+        mpmath.mp.dps = 50
+        th0, s0 = abs(float(model.get('theta', 3 * eps))), float(model.get('sigma', 3 * eps))
+        fac = (1.0, 1.3, 0.77, 1.9, 2.7, 0.51, 3.3, 7.1, 0.13)
+        cand = [(th0 * f, s0 * g) for f in fac for g in fac]
+        cand += [(f * eps, sgn * g * eps) for sgn in (1, -1) for f in (1.3, 1.7, 3.3, 13.7, 137.3, 1370.3) for g in (1.3, 1.7, 3.3, 13.7, 137.3, 1370.3)]
+        worst, wp = 0.0, None
+        for th_, s_ in cand:
+            if not (0 < th_ <= 0.25 and abs(s_) <= 0.25):
+                continue
+            xs = torch.tensor([1.0, 0, 0, 0, 0, th_, s_], dtype=dt)
+            tv, sv = mpmath.mpf(float(xs[5])), mpmath.mpf(float(xs[6]))
+            G = mpmath.matrix([[sv, -tv, 0, 1], [tv, sv, 0, 0], [0, 0, sv, 0], [0, 0, 0, 0]])
+            E = mpmath.expm(G)
+            got = pp.sim3(xs).Exp().tensor()[:3].double().tolist()
+            nrm = mpmath.sqrt(sum(E[i, 3] ** 2 for i in range(3)))
+            e = float(mpmath.sqrt(sum((mpmath.mpf(got[i]) - E[i, 3]) ** 2 for i in range(3))) / nrm)
+            if e > worst:
+                worst, wp = e, (float(xs[5]), float(xs[6]))
+        return worst > tolf, ('relative error of the translation of sim3([1,0,0, 0,0,theta, sigma]).Exp(): %.3g at theta=%.3g, sigma=%.3g '
+                              '(allowed %.3g)' % ((worst,) + (wp or (0, 0)) + (tolf,)))
+
+    for ctx, (t0, t1, th, sig) in run_paths(H, name, prog, max_paths=16, f32=f32):
+        pn = H.paths
+        hyp = H.hyps_of(ctx) + [z3.And(d <= u, d >= -u) for d in ctx.deltas]
+        zero = [(d, z3.RealVal(0)) for d in ctx.deltas]
+        e0, e1 = subst(t0, zero), subst(t1, zero)
+        tol = rat(float(tolf))
+        ab = lambda e: z3.If(e >= 0, e, -e)
+        for i, (t, e) in enumerate(((t0, e0), (t1, e1))):
+            H.prove('%s/path%d/rounding-error(t[%d])<=100sqrt(eps)|t|' % (name, pn, i), hyp, ab(t - e) <= tol * ab(e0), replay=replay,
+                    key='C01/rounding/rxso3_Ws.AB', timeout=(30 if H.quick else 150))
+        H.reach('%s/path%d/reach' % (name, pn), hyp)
+        H.notes.append('%s path %d: %d rounding variables' % (name, pn, len(ctx.deltas)))
+
+
 def run(H):
     H.assumptions += ['exact real arithmetic for the identity obligations; the standard model of floating-point arithmetic (|delta|<=u per operation, '
                       'libm functions within 1 ulp, no under/overflow) for the rounding obligation', '|sigma| <= 8']
@@ -195,8 +292,11 @@ def run(H):
             import traceback; traceback.print_exc()
             H.engine_error('exp/' + g, e)
     for f32 in (False, True):
+        if only and only not in 'rounding':
+            continue
         try:
             case_rounding_C(H, f32)
+            case_rounding_W(H, f32)
         except Exception as e:
             import traceback; traceback.print_exc()
             H.engine_error('rounding', e)
